@@ -99,38 +99,69 @@ Definition scenarios : list params :=
 Definition sweep (g : cfg) (n : nat) : bool :=
   forallb (fun p => forallb (fun pl => idem_ok g p (s_base g) pl) (plans n)) scenarios.
 
+Lemma sweep_spec : forall g n, sweep g n = true ->
+  forall p pl, In p scenarios -> In pl (plans n) -> idem_ok g p (s_base g) pl = true.
+Proof.
+  intros g n H p pl Hp Hpl. unfold sweep in H.
+  pose proof (proj1 (forallb_forall _ _) H p Hp) as H2.
+  exact (proj1 (forallb_forall _ _) H2 pl Hpl).
+Qed.
+
 Lemma sweep_fixed : sweep (fixed 1) 7 = true /\ sweep (fixed 3) 7 = true.
 Proof. split; vm_compute; reflexivity. Qed.
 
 Lemma retry_idempotent_fixed_bounded : forall R p pl, In R [1; 3] -> In p scenarios -> In pl (plans 7) ->
   idem_ok (fixed R) p (s_base (fixed R)) pl = true.
 Proof.
-  intros R p pl HR Hp Hpl. destruct sweep_fixed as [H1 H3].
-  assert (H : sweep (fixed R) 7 = true) by (destruct HR as [<-|[<-|[]]]; assumption).
-  unfold sweep in H. rewrite forallb_forall in H. specialize (H p Hp). rewrite forallb_forall in H. exact (H pl Hpl).
+  intros R p pl HR Hp Hpl. destruct HR as [<-|[<-|[]]].
+  - exact (sweep_spec (fixed 1) 7 (proj1 sweep_fixed) p pl Hp Hpl).
+  - exact (sweep_spec (fixed 3) 7 (proj2 sweep_fixed) p pl Hp Hpl).
 Qed.
 
-(** as shipped: one failed final commit, the operation returns normally, and rows are missing *)
-Lemma retry_loses_rows_shipped : idem_ok (shipped 3) (mkp topc [1; 2]) (s_base (shipped 3)) [FOk; FFail] = false /\
-  (exists s' pl', resolve_op (shipped 3) (mkp topc [1; 2]) (s_base (shipped 3)) [FOk; FFail] = ROk s' pl' /\
-                  rows (com s') topc = []) /\
-  (exists s'' pl'', resolve_op (shipped 3) (mkp topc [1; 2]) (s_base (shipped 3)) [] = ROk s'' pl'' /\
-                  rows (com s'') topc = [1; 2]).
+(** completed with exactly these subtree rows for the call node, which is recorded *)
+Definition ok_with_rows (r : res) (c : tree) (ts : list nat) : bool :=
+  match r with
+  | ROk s' _ => nats_eqb (rows (com s') c) ts && memt c (nodes (com s'))
+  | _ => false
+  end.
+Lemma ok_with_rows_spec : forall r c ts, ok_with_rows r c ts = true ->
+  exists s' pl', r = ROk s' pl' /\ rows (com s') c = ts /\ In c (nodes (com s')).
 Proof.
-  split; [vm_compute; reflexivity|]. split; eexists; eexists; (split; [vm_compute; reflexivity|vm_compute; reflexivity]).
+  intros [s' pl'| | |] c ts H; try discriminate. simpl in H. apply andb_true_iff in H. destruct H as [H1 H2].
+  exists s', pl'. split; [reflexivity|]. split; [apply nats_eqb_spec; exact H1|apply memt_In; exact H2].
 Qed.
+
+(** as shipped: one failed final commit, the operation returns normally, and the rows are missing *)
+Lemma retry_loses_rows_shipped :
+  idem_ok (shipped 3) (mkp topc [1; 2]) (s_base (shipped 3)) [FOk; FFail] = false /\
+  ok_with_rows (resolve_op (shipped 3) (mkp topc [1; 2]) (s_base (shipped 3)) [FOk; FFail]) topc [] = true /\
+  ok_with_rows (resolve_op (shipped 3) (mkp topc [1; 2]) (s_base (shipped 3)) []) topc [1; 2] = true.
+Proof. repeat split; vm_compute; reflexivity. Qed.
 
 (** the same plan in the repaired variant completes with all rows (the sweep is not vacuous) *)
-Lemma retry_keeps_rows_fixed : exists s' pl', resolve_op (fixed 3) (mkp topc [1; 2]) (s_base (fixed 3)) [FOk; FFail] = ROk s' pl' /\
-  rows (com s') topc = [1; 2] /\ In topc (nodes (com s')).
-Proof. eexists; eexists. split; [vm_compute; reflexivity|]. split; [vm_compute; reflexivity|vm_compute; auto]. Qed.
+Lemma retry_keeps_rows_fixed :
+  ok_with_rows (resolve_op (fixed 3) (mkp topc [1; 2]) (s_base (fixed 3)) [FOk; FFail]) topc [1; 2] = true.
+Proof. vm_compute. reflexivity. Qed.
 
-(** a transient error at the commit of a nested record_value while the CallNode is pending: the
-    nested db_retry rolls the CallNode back, the Argument insert violates its foreign key, the run
-    dies (both variants); nothing partial is committed. *)
-Lemma inner_fault_kills_run : forall g, In g [shipped 3; fixed 3] ->
-  exists s', resolve_op g (mkp (Node 1 [11; 12] 21 [leafc]) [1; 2]) (s_base g) [FOk; FFail] = RDied s' /\
-             memt (Node 1 [11; 12] 21 [leafc]) (nodes (com s')) = false /\ argrows (com s') = argrows (com (s_base g)).
-Proof.
-  intros g [<-|[<-|[]]]; eexists; (split; [vm_compute; reflexivity|split; vm_compute; reflexivity]).
-Qed.
+(** as shipped, a transient error at the commit of a nested record_value:
+    - [FOk; FFail]: the CallNode is pending; the nested db_retry rolls it back, the Argument insert then
+      violates its foreign key, the run dies (nothing partial is committed);
+    - [FOk; FOk; FFail]: the CallNode was already committed by the previous nested commit; the nested
+      db_retry rolls back the pending first Argument row, the operation returns normally and that row is lost. *)
+Definition p_two_args : params := mkp (Node 1 [11; 12] 21 [leafc]) [1; 2].
+Definition died_clean (r : res) (c : tree) : bool :=
+  match r with RDied s' => negb (memt c (nodes (com s'))) | _ => false end.
+Definition ok_with_args (r : res) (c : tree) (n : nat) : bool :=
+  match r with
+  | ROk s' _ => Nat.eqb (length (filter (fun x => tree_eqb (fst (fst x)) c) (argrows (com s')))) n
+  | _ => false
+  end.
+Lemma inner_fault_shipped :
+  died_clean (resolve_op (shipped 3) p_two_args (s_base (shipped 3)) [FOk; FFail]) (p_call p_two_args) = true /\
+  ok_with_args (resolve_op (shipped 3) p_two_args (s_base (shipped 3)) [FOk; FOk; FFail]) (p_call p_two_args) 1 = true /\
+  ok_with_args (resolve_op (shipped 3) p_two_args (s_base (shipped 3)) []) (p_call p_two_args) 2 = true.
+Proof. repeat split; vm_compute; reflexivity. Qed.
+Lemma inner_fault_fixed :
+  ok_with_args (resolve_op (fixed 3) p_two_args (s_base (fixed 3)) [FOk; FFail]) (p_call p_two_args) 2 = true /\
+  ok_with_args (resolve_op (fixed 3) p_two_args (s_base (fixed 3)) [FOk; FOk; FFail]) (p_call p_two_args) 2 = true.
+Proof. repeat split; vm_compute; reflexivity. Qed.
